@@ -70,6 +70,12 @@ class AccVisitor(NameCheckVisitor):
             self.__dict__.setdefault("pv_visited", set()).add(type(node).__name__)
         return ret
 
+    def show_error(self, node, e=None, error_code=None, **kw):
+        # every attempt, before the duplicate filter / ignore handling
+        self.__dict__.setdefault("pv_attempts", []).append(
+            (getattr(node, "lineno", None), getattr(error_code, "name", None), str(e)))
+        return super().show_error(node, e, error_code, **kw)
+
     def composite_from_node(self, node):
         comp = super().composite_from_node(node)
         if self._is_checking() and isinstance(node, (ast.Name, ast.Attribute, ast.Subscript)):
@@ -100,6 +106,7 @@ class CheckResult:
     visited: set = field(default_factory=set)
     raw: list = field(default_factory=list)
     module: Any = None
+    attempts: list = field(default_factory=list)
 
     def values_of(self, node):
         return self.values.get(id(node), [])
@@ -218,6 +225,7 @@ def check_source(
                 if collect_values:
                     res.values = visitor.__dict__.get("pv_values", {})
                     res.visited = visitor.__dict__.get("pv_visited", set())
+                    res.attempts = visitor.__dict__.get("pv_attempts", [])
             except Exception as e:  # totality is C12's subject; others treat as harness info
                 res.raised = e
         if keep_module:
